@@ -180,6 +180,10 @@ pub fn text_of(c: &LendersCase) -> Vec<u8> {
     let mut out = Vec::new();
     let alphabet: Vec<char> = "abcdefghijklmnopqrstuvwxyzABC0123456789 \t-_/.:é€ß\r".chars().collect();
     let long_at: Vec<usize> = (0..c.long_lines).map(|_| rng.usize_below(c.nlines.max(1))).collect();
+    if c.text_seed % 13 == 5 {
+        // a UTF-8 byte-order mark: ordinary content of the first line, on every pass
+        out.extend_from_slice(&[0xEF, 0xBB, 0xBF]);
+    }
     for i in 0..c.nlines {
         let len = if long_at.contains(&i) { 100_000 + rng.usize_below(5000) } else { rng.urange(0, c.max_line) };
         let mut s = String::new();
@@ -201,6 +205,37 @@ pub fn text_of(c: &LendersCase) -> Vec<u8> {
         }
     }
     out
+}
+
+/// A zstd stream of one frame, or (one input in five) of two or three concatenated frames cut at arbitrary bytes,
+/// the first of which may be empty: what `pzstd` or `cat a.zst b.zst` produce.
+pub fn zstd_frames(text: &[u8], seed: u64, level: i32) -> Vec<u8> {
+    if seed % 5 != 3 || text.is_empty() {
+        return zstd::encode_all(text, level).expect("zstd encode");
+    }
+    let a = (seed >> 8) as usize % (text.len() + 1);
+    let b = a + (seed >> 24) as usize % (text.len() - a + 1);
+    let mut out = Vec::new();
+    let first: &[u8] = if (seed >> 5) % 3 == 0 { &[] } else { &text[..a] };
+    let a = first.len();
+    out.extend(zstd::encode_all(first, level).expect("zstd encode"));
+    out.extend(zstd::encode_all(&text[a..b.max(a)], level).expect("zstd encode"));
+    out.extend(zstd::encode_all(&text[b.max(a)..], level).expect("zstd encode"));
+    out
+}
+
+/// Byte offsets at which a frame of [`zstd_frames`] ends (the end of the stream excluded).
+pub fn zstd_frame_ends(text: &[u8], seed: u64, level: i32) -> Vec<u64> {
+    if seed % 5 != 3 || text.is_empty() {
+        return vec![];
+    }
+    let a = (seed >> 8) as usize % (text.len() + 1);
+    let b = a + (seed >> 24) as usize % (text.len() - a + 1);
+    let first: &[u8] = if (seed >> 5) % 3 == 0 { &[] } else { &text[..a] };
+    let a = first.len();
+    let l1 = zstd::encode_all(first, level).expect("zstd encode").len() as u64;
+    let l2 = zstd::encode_all(&text[a..b.max(a)], level).expect("zstd encode").len() as u64;
+    vec![l1, l1 + l2]
 }
 
 /// The model: split on LF, strip one CR only before a LF, keep an unterminated last line.
@@ -398,9 +433,13 @@ fn run_case(case: &LendersCase) -> Outcome {
             }
         }
         "zstd" => {
-            let comp = zstd::encode_all(&text[..], 3).expect("zstd encode");
+            let comp = zstd_frames(&text, case.text_seed, 3);
             let mut plan = case.plan.clone();
             plan.truncate_at = plan.truncate_at.map(|t| 1 + t % (comp.len() as u64 - 1).max(1));
+            // a stream of several frames cut exactly between two frames is a valid, shorter stream (no decoder can
+            // tell): such a cut is moved one byte into the next frame, where it must be reported as an error
+            let bounds = zstd_frame_ends(&text, case.text_seed, 3);
+            plan.truncate_at = plan.truncate_at.map(|t| if bounds.contains(&t) && t + 1 < comp.len() as u64 { t + 1 } else { t });
             let src = SimSource::new(Arc::new(comp), plan, stats.clone());
             set_op("ZstdLineLender::new");
             match ZstdLineLender::new(src) {
@@ -441,7 +480,7 @@ fn run_case(case: &LendersCase) -> Outcome {
             let dir = tempfile::tempdir().expect("tempdir");
             let path = dir.path().join("input");
             let bytes = match case.kind.as_str() {
-                "zstd_file" => zstd::encode_all(&text[..], 1).expect("zstd encode"),
+                "zstd_file" => zstd_frames(&text, case.text_seed, 1),
                 "gzip_file" => {
                     let mut enc = flate2::write::GzEncoder::new(Vec::new(), flate2::Compression::fast());
                     enc.write_all(&text).unwrap();
